@@ -14,9 +14,11 @@ variable [Rules]
 def classOf (stc inl : Bool) : FnClass :=
   if stc then (if inl then .localIfNeeded else .localAlways) else .globalAlways
 
+omit [Rules] in
 theorem classOf_ne_ifNeeded (stc inl : Bool) : (classOf stc inl != .localIfNeeded) = !(stc && inl) := by
   cases stc <;> cases inl <;> rfl
 
+omit [Rules] in
 theorem classOf_first (d : FnDecl) (rest : List FnDecl) : classOf (effFlags d).1 (effFlags d).2 = fnClassFirst (d :: rest) := rfl
 
 /-! ### `fnFlags` in terms of `fnDecls` -/
